@@ -822,6 +822,8 @@ func runC04(c *runCtx) error {
 		"int(str(int('7')))", "upper(str(1 + 2) + 'x')", "strlen(str(1.5 * 2))", "is_int(str(1 + 2))", "int(upper('1') + '2') * 2",
 		"'a' in ('a', 'b')", "'a' in (upper('a'), 'b')", "key in ('a' + 'b', 'a')", "1 in (1, 1 + 1)", "int(value) in (1 + 1, 12)", "'a' in split('a,b', ',')", "upper('a') in split('A,b', ',')", "2 in list(1, 1 + 1)",
 		"1 between 0 and 2", "1 + 1 between 0 and 3", "int(value) between 1 + 1 and 3 * 7", "'b' between 'a' and 'c'", "'a' + 'b' between 'a' and 'b'",
+		"0.125 * 0.0625", "1 / 128.0", "float('0.0078125')", "float(value) * 0.125 * 0.0625", "(float(value) * 0.0078125) * 0.5",
+		"0.0078125 + 0.00390625", "3 * 0.001953125", "float(value) + (0.125 * 0.0625)", "(0.5 * 0.0078125) > 0.0039", "str(0.125 * 0.0625)",
 		"(1 + 2) * 3", "1 + 2 * 3", "(1 + 2) * (3 + 7)", "(1 + 2) * (0.5 + 1.5)", "7 / 2", "7 / 2.0", "7 / (1 + 1)", "3 * 0.5", "0.5 * 3", "1 - 2 - 3", "2 * 3 / 7", "7 / 0.5 / 2",
 		"1 / (1 - 1)", "1.5 / (0.5 - 0.5)", "int(value) / (1 - 1)", "9223372036854775807 + 1", "(int(value) + 9223372036854775807) + 1", "9223372036854775807 * 2 * 3", "(int(value) * 4611686018427387904) * 4",
 		"'a' + 'b'", "'a' + 'b' + 'c'", "('a' + 'b') + ('a' + 'b')", "key + 'a' + 'b'", "key + ('a' + 'b')", "'a' + key + 'b'", "'a' + 'b' + key", "key + value + 'a' + 'b'", "(key + 'a') + ('b' + 'a')",
